@@ -26,12 +26,13 @@ REQUIRED_THEOREMS = [
     "C09_pure_is_state", "C09_pure_symmetric", "C09_pure_trivial", "C09_pairing", "C09_no_mutation", "C09_region",
     # audit round: the RBM density matrix is a state (C02) -> Renyi-2 >= 0 for mixed states
     "C09_mixed_is_state", "C09_purity_mixed_rbm", "C09_purity_pos_mixed_rbm", "C09_renyi_nonneg_mixed_rbm", "C09_empty_region",
+    "C09_renyi_nonneg_pure_rbm", "C09_renyi_nonneg_pure_rbm_pos",   # second audit C09-A1: hypothesis-free instances for the RBM wavefunctions
 ]
 THEOREMS = {
     "apply": "C09_purity (+ C09_no_mutation: run = per-pair value on (samples[i], samples[(i-1) mod B]); C09_region)",
     "after": "C09_no_mutation",
     "pairing": "C09_pairing",
-    "nonneg": "C09_renyi_nonneg / C09_purity_le_one (pure: C09_pure_is_state; mixed: C09_renyi_nonneg_mixed_rbm under C02's guard NZ, "
+    "nonneg": "C09_renyi_nonneg / C09_purity_le_one (pure: C09_pure_is_state, RBM instances C09_renyi_nonneg_pure_rbm / _pos; mixed: C09_renyi_nonneg_mixed_rbm under C02's guard NZ, "
               "C09_purity_pos_mixed_rbm without)",
     "sym": "C09_pure_symmetric",
     "trivial": "C09_pure_trivial",
